@@ -7,7 +7,7 @@ MODS = ['Model.NumLex', 'Model.Number', 'Spec.NumSpec']
 SPEC_MODS = ['Model.NumLex']
 RULE = ('cases = builtin(arg) with builtin in round/ceil/floor/increment/decrement/percentage and arg on a grid around integers '
         'and half-integers of both signs (k, k+-1/2, k+-eps for several eps, small and large k), with and without a unit, given as '
-        'literal, variable or arithmetic expression; distinct = distinct (builtin, argument text, form); non-trivial = the argument '
+        'literal, variable or arithmetic expression; plus calls of functions lesscpy does not define (about 90 names: real CSS functions and invented ones) with 1-4 arguments that are numbers, words, variables, parenthesised arithmetic or colours, expected copied with the arguments evaluated, in order; distinct = distinct (builtin, argument text, form); non-trivial = the argument '
         'is not an integer (so rounding/ceil/floor actually move it) or the builtin changes the value')
 ASSUMPTIONS = ['python float arithmetic on the grid values is exact enough that |impl - exact| <= 1e-9 relative',
                'Call.parse dispatch, analyze_number and with_unit are hand-modelled (coq/Model/NumLex.v, Number.v); the arithmetic of each built-in is translated from the source']
@@ -79,6 +79,12 @@ def gen_cases(rng, n):
             c['expr'] = '%s(@a)' % b
             c['var'] = txt
             c['descr'] = b + ' var-arg'
+        if rng.random() < 0.3:
+            # blanks inside the parentheses do not matter
+            o, cl = rng.choice(['', ' ', '  ']), rng.choice([' ', '  ', ' ', ''])
+            head, rest = c['expr'].split('(', 1)
+            c['expr'] = head + '(' + o + rest[:-1] + cl + ')'
+            c['descr'] += ' blanks'
         cases.append(c)
     return cases
 
@@ -140,6 +146,83 @@ def run_mixin_family(ctx, rng, n, out):
     return len({r['input']['less'] for r in recs})
 
 
+# ---- the second half of the property, on the real compiler: a function lesscpy does not define is copied to the output with its
+# arguments evaluated (variables replaced, arithmetic carried out, colours normalised) and otherwise unchanged, in the same order.
+# Names: real CSS functions and invented ones, none of which lesscpy defines (the list of what it defines is written out here, not
+# read from the tree under test: a method that appears there under the name of a CSS function must not hide itself).
+LESSCPY_DEFINES = {'add', 'ceil', 'decrement', 'escape', 'e', 'floor', 'increment', 'iscolor', 'iskeyword', 'isnumber', 'isstring', 'isurl',
+                   'percentage', 'round', 'sformat', 'argb', 'darken', 'desaturate', 'grayscale', 'greyscale', 'hsl',
+                   'hsla', 'hue', 'lighten', 'lightness', 'mix', 'opacity', 'rgb', 'rgba', 'saturate', 'saturation', 'spin', 'url'}
+CSS_FUNCS = ['clamp', 'min', 'max', 'minmax', 'translate', 'translateX', 'translateY', 'translate3d', 'rotate', 'rotateX', 'scale', 'scaleX', 'skew', 'skewY',
+             'matrix', 'perspective', 'attr', 'counter', 'counters', 'steps', 'cubic-bezier', 'linear-gradient', 'radial-gradient', 'repeat', 'fit-content',
+             'var', 'env', 'blur', 'brightness', 'contrast', 'drop-shadow', 'hue-rotate', 'invert', 'sepia', 'rect', 'inset', 'circle', 'ellipse', 'polygon',
+             'image-set', 'element', 'format', 'local', 'symbols', 'hwb', 'lab', 'lch', 'color-mix', 'abs', 'sign', 'mod', 'rem', 'sin', 'cos', 'pow', 'sqrt',
+             'hypot', 'log', 'exp', 'foo', 'my-fn', 'x1', 'tint', 'shade', 'fade', 'unit', 'convert', 'lookup', 'name', 'tokens', 'call', 'swap', 'update',
+             'hextorgb', 'value', 'lineno', 'clip', 'snap', 'span', 'line', 'area', 'fmt', 'parse', 'process', 'copy', 'replace_variables', 'operate', 'parsed', 'raw']
+
+
+def unknown_cases(rng, n):
+    out = []
+    names = [f for f in CSS_FUNCS if f not in LESSCPY_DEFINES]
+    for i in range(n):
+        name = rng.choice(names)
+        nargs = rng.choice([1, 1, 2, 2, 3, 4])
+        src, exp, variables = [], [], []
+        for k in range(nargs):
+            kind = rng.random()
+            u = rng.choice(['', 'px', 'em', '%', 'deg'])
+            a = rng.randint(1, 40); b = rng.randint(1, 9)
+            if kind < 0.3:
+                src.append('%d%s' % (a, u)); exp.append('%d%s' % (a, u))
+            elif kind < 0.4:
+                src.append(fmt_dec(Fraction(a, 4)) + u); exp.append(fmt_dec(Fraction(a, 4)) + u)
+            elif kind < 0.55:
+                w = rng.choice(['end', 'start', 'auto', 'data-x', 'to', 'left', 'top', 'closest-side', 'x', 'bold'])
+                src.append(w); exp.append(w)
+            elif kind < 0.7:
+                v = '@u%d_%d' % (i, k)
+                variables.append((v, '%d%s' % (a, u)))
+                src.append(v); exp.append('%d%s' % (a, u))
+            elif kind < 0.85:
+                op = rng.choice(['+', '-', '*'])
+                val = {'+': a + b, '-': a - b, '*': a * b}[op]
+                if val == 0:
+                    val, op = a + b, '+'
+                if rng.random() < 0.5:
+                    v = '@u%d_%d' % (i, k)
+                    variables.append((v, '%d%s' % (a, u)))
+                    src.append('(%s %s %d)' % (v, op, b))
+                else:
+                    src.append('(%d%s %s %d)' % (a, u, op, b))
+                exp.append('%d%s' % (val, u))
+            else:
+                c = ''.join(rng.choice('0123456789abcdefABCDEF') for _ in range(rng.choice([3, 6])))
+                full = c if len(c) == 6 else ''.join(ch * 2 for ch in c)
+                src.append('#' + c); exp.append('#' + full.lower())
+        sep = rng.choice([', ', ',', ' , ', ',  '])
+        lead = rng.choice(['', '', 'solid ', '1px '])
+        prelude = ''.join('%s: %s;\n' % vv for vv in variables)
+        out.append({'name': name, 'text': prelude + '.c0{width: %s%s(%s%s%s)}\n' % (lead, name, rng.choice(['', ' ']), sep.join(src), rng.choice(['', ' '])),
+                    'expected': '%s%s(%s)' % (lead, name, ','.join(exp)), 'nargs': nargs})
+    return out
+
+
+def run_unknown_family(ctx, rng, n, out):
+    import re
+    cases = unknown_cases(rng, n)
+    with impl.Pool() as pool:
+        ans = pool.run([{'kind': 'compile', 'text': c['text'], 'opts': {}} for c in cases])
+    squeeze = lambda t: re.sub(r'\s*([(),])\s*', r'\1', t.strip())
+    for c, a in zip(cases, ans):
+        out['evaluations'] += 1
+        got = valuecases.split_sheet(a['css']).get(0) if a.get('r') == 'ok' else None
+        if got is None or squeeze(got) != squeeze(c['expected']):
+            out['spec_mismatch'].append({'input': {'less': c['text'], 'rule': 'c0'}, 'impl': a, 'spec': 'the call is copied with its arguments evaluated: ' + c['expected'],
+                                         'classes': [], 'descr': 'unknown function ' + c['name']})
+    out.setdefault('distribution', {})['unknown functions (calls / distinct names)'] = [len(cases), len({c['name'] for c in cases})]
+    return len({c['text'] for c in cases if c['nargs'] >= 2})
+
+
 def run(ctx):
     ctx = dict(ctx, spec_mods=SPEC_MODS)
     rng = random.Random(ctx['seed'] * 1000003 + 17)
@@ -178,6 +261,7 @@ def run(ctx):
     out['distribution'] = dist
     extra = run_mixin_family(ctx, rng, max(40, n // 6), out)
     out['distinct_nontrivial'] += extra
+    out['distinct_nontrivial'] += run_unknown_family(ctx, rng, max(150, n // 3), out)
     return out
 
 
